@@ -20,3 +20,9 @@ chk('C08', MC, FAM + 'C08: every step output handed to the run loop is checked a
     TRUST, 'TLA+ trace validation with per-event schema conformance flags computed from the declared lifecycle schemas', 'DESIGN 5 C08')
 chk('C15', MC, FAM + 'C15: wait-optional evaluated only after its source is decided and present iff produced; soft-optional present only with a produced source and never dropped when the source was resolved before the handler; one-of carries a produced option and the matching discriminator.',
     TRUST, 'TLA+ trace validation (TreeCheck tag rules in Workflow.tla) on tag-heavy generated workflows', 'DESIGN 5 C15')
+chk('C01', MC, FAM + 'C01: exactly one Return per run, a second output or a run that does not return is a violation; a size sweep derived from the model counter-example (one failing step, N-1 never-ending siblings feeding one output, N up to 60) and fallback-detector scenarios run under a watchdog whose goroutine dump is classified (channel send under the run lock + caller in ForceClose).',
+    TRUST + '; a watchdog verdict is a violation only for runs that did not return within 15 s on an idle 16-core machine', 'TLC meaning oracle + TLA+ trace validation + model-derived size sweep under watchdog', 'DESIGN 5 C01')
+chk('C07', MC, FAM + 'C07: workflows whose expressions fail at run time (omitted optional input, index out of range, failing conversions, NaN, arithmetic faults, missing keys) and misbehaving steps (crash, undeclared data) must return an error; a Go panic in an engine goroutine or an evaluation failure that does not surface as a returned error is a violation.',
+    TRUST, 'failure-kind enumeration executed on the real engine in child processes + TLA+ trace validation (evaluation failure must be followed by an error Return)', 'DESIGN 5 C07')
+chk('C09', MC, FAM + 'C09: single-site stall sweep (every gate/hook point x step x occurrence, stall >= 80 ms > the detector retry budget) and random multi-site delays on workflows whose Meaning.tla result set is a singleton; the result must not change and the detector must not report "no more steps" while a step has unread input or a plugin executes.',
+    TRUST + '; stall lengths are wall-clock sleeps at hook points', 'gate-driven schedule injection on the real engine judged by the TLC-computed meaning + TLA+ trace validation of detector verdicts', 'DESIGN 5 C09, 4.3')
